@@ -61,6 +61,18 @@ def handle (op : String) (args : List String) : Option String :=
       let d ← parseDict? d
       let ps ← parseStrList? ps
       some (Py.showR (fun (r : Option Zone × Bool) => s!"{showZone r.1} {showBool r.2}") (Gen.rrsDateParms ps d k))
+  | "rrsgen.datevalue", [kind, d, ps, h] => do
+      -- the WHOLE translated `_parse_date_value`; `parser.parse` = the compact reader (`…Z` carries its own zone), anything else ValueError
+      let k ← parseKind? kind
+      let d ← parseDict? d
+      let ps ← parseStrList? ps
+      let v ← parseHexString? h
+      let parse : Str → Py.R (Str × Option Zone) := fun t =>
+        match RRuleStr.parseCompact t with
+        | .compact _ _ _ _ _ _ z => .ok (t, if z then some .fromText else none)
+        | .other _ => .error .ValueError
+      some (Py.showR (fun (r : List (Str × Option Zone)) => "[" ++ ",".intercalate (r.map (fun p => hexL p.1 ++ "/" ++ showZone p.2)) ++ "]")
+        (Gen.rrsParseDateValue parse v.toList ps d k))
   | "rrsgen.attach", [a, b] => do
       let a ← parseZone? a
       let b ← parseZone? b
